@@ -1217,12 +1217,9 @@ func (t *ZeroAllocTokenizer) TokenizeOptimized() ([]Token, error) {
 		var endLength int
 
 		switch tagLoc.Type {
-		case TAG_VAR:
-			endTokenType = TOKEN_VAR_END
-			endLength = 2 // }}
-		case TAG_VAR_TRIM:
+		case TAG_VAR, TAG_VAR_TRIM:
 			// Check if it ends with -}}
-			if tagEndPos > 0 && t.source[tagEndPos-1] == '-' {
+			if tagEndPos > tagContentStart && t.source[tagEndPos-1] == '-' {
 				endTokenType = TOKEN_VAR_END_TRIM
 				endLength = 3 // -}}
 				// Adjust tag content to remove the trailing dash
@@ -1231,12 +1228,9 @@ func (t *ZeroAllocTokenizer) TokenizeOptimized() ([]Token, error) {
 				endTokenType = TOKEN_VAR_END
 				endLength = 2 // }}
 			}
-		case TAG_BLOCK:
-			endTokenType = TOKEN_BLOCK_END
-			endLength = 2 // %}
-		case TAG_BLOCK_TRIM:
+		case TAG_BLOCK, TAG_BLOCK_TRIM:
 			// Check if it ends with -%}
-			if tagEndPos > 0 && t.source[tagEndPos-1] == '-' {
+			if tagEndPos > tagContentStart && t.source[tagEndPos-1] == '-' {
 				endTokenType = TOKEN_BLOCK_END_TRIM
 				endLength = 3 // -%}
 				// Adjust tag content to remove the trailing dash
